@@ -38,6 +38,11 @@ def run(ctx):
     ctx.attempt("check_casts", check_casts, ctx, lib)
     ctx.attempt("check_identity", check_identity, ctx, lib)
     ctx.attempt("check_manifest", check_manifest, ctx, lib)
+    # under default features search() converts its input through the crate's own Serializer (Variable::serialize ->
+    # Serializer / SeqState / MapState), so the identity query is only as faithful as those rows (shared with C14)
+    from . import c14
+    ctx.attempt("check_serializer", c14.check_serializer, ctx, lib)
+    ctx.attempt("check_states", c14.check_states, ctx, lib)
 
 
 def check_visitor(ctx, lib):
@@ -116,12 +121,20 @@ def check_visitor(ctx, lib):
         calls = [t for _, t in d.calls()]
         ok = len(calls) == 1 and calls[0]["callee"] == "serde::Deserializer::deserialize_any"
         ctx.check(ok, rule, "entry", "Variable::deserialize = deserializer.deserialize_any(VariableVisitor)", d.span)
+    check_from_json(ctx, lib, rule)
+
+
+def check_from_json(ctx, lib, rule):
+    """from_json is serde_json's complete-text parse: the whole text must be one JSON value (trailing characters
+    are an error) and the value is built by the Variable visitor."""
     fj = ctx.fn("variable::Variable::from_json", rule=rule)
     if fj is not None:
         calls = [t for _, t in fj.calls() if t["callee"].startswith("serde_json::")]
         ok = len(calls) == 1 and calls[0]["callee"] == "serde_json::from_str" and calls[0]["callee_args"][-1] == VAR and \
             Origins(fj, lib).of_operand(calls[0]["args"][0]) == {P1}
-        ctx.check(ok, rule, "from_json", "from_json(s) = serde_json::from_str::<Variable>(s)", fj.span)
+        r = Origins(fj, lib).of_local(0)
+        ok = ok and bool(r) and all(t[0] == "call" and t[1] in ("serde_json::from_str", "std::result::Result::<T, E>::map_err") for t in r)
+        ctx.check(ok, rule, "from_json", "from_json(s) = serde_json::from_str::<Variable>(s): the whole text is one JSON value, nothing may follow it", fj.span)
 
 
 def unconditional_add(b, o, nx, add):
@@ -245,6 +258,8 @@ def check_tryfrom(ctx, lib):
                 ms(a[2], Call("ToJmespath::to_jmespath", Each(("field", el, "1")))) and ms(o.of_operand(nx[0][1]["args"][0]), ("iter", P1))
             oks, _ = RT.ok_values(cm)
             ok = ok and len(oks) == 1 and ms(o.of_operand(oks[0][1]), Agg(VAR + "::Object", Each(Call(r"BTreeMap::<K, V>::new$", regex=True))))
+            # no entry is skipped: from the Some arm of next() the loop head is reached only through the insert
+            ok = ok and unconditional_add(cm, o, nx[0], ins[0])
         n += 1
         ctx.check(ok, rule, "convert_map", "every (key, value) entry is inserted under its own key with the value converted recursively", cm.span)
     ctx.floor(rule, n, 13, "Value conversion rows")
